@@ -66,6 +66,56 @@ def c_lerp(c):
     c.observe('r', r)
 
 
+@contract('C12', 'slerp.lerp-branch.antipodal', variants=[dict(copy='quaternion'), dict(copy='orientation')],
+          functions=['quaternion.slerp', 'orientation.slerp'])
+def c_lerp_anti(c):
+    """nearly antipodal endpoints (p.q < -0.9995): the path goes to the NEARER endpoint -q (normalised LERP towards -q)"""
+    f = _slerp(c, c.p['copy'])
+    p, q = c.unit_quat('p'), c.unit_quat('q')
+    t = c.real('t')
+    c.assume(And(ge(t, 0), le(t, 1)))
+    cd = dot(p, q)
+    c.assume(lt(cd, -THR))
+    ts = np.array([0.0, t, 1.0], dtype=object) if c.symbolic else np.array([0.0, t, 1.0])
+    v = p + t * (-q - p)
+    c.lemma('|p+t(-q-p)|^2', eq(dot(v, v), 1 - 2 * t * (1 - t) * (1 + cd)))
+    c.lemma('t(1-t)<=1/4', le(t * (1 - t), 0.25))
+    c.lemma('|p+t(-q-p)|^2>0.99', gt(dot(v, v), 0.99))
+    R = f(p.copy(), q.copy(), ts)
+    c.goal_eq('start', R[0], p)
+    c.goal_eq('end=-q', R[2], -q)
+    r = R[1]
+    c.goal('unit', eq(dot(r, r), 1))
+    c.goal('on-the-near-side: r.p > 0', gt(dot(r, p), 0))
+
+
+def _jump_cases():
+    out = []
+    for n in range(2, 7):
+        for mask in range(2 ** n):
+            out.append(dict(n=float(n), mask=float(mask)))
+    return out
+
+
+@contract('C12', 'remove_jumps.bounded', concrete_points=_jump_cases(), bounded='every sign-flip pattern of every sequence length N <= 6 '
+          '(124 cases) on one smooth trajectory; NOT a proof', functions=['QuaternionArray.remove_jumps', 'orientation.q_correct'])
+def c_jumps(c):
+    """BOUNDED stand-in: after remove_jumps / q_correct no consecutive pair is more than 1 apart and every row is +- the original"""
+    import ahrs
+    n, mask = int(c.real('n')), int(c.real('mask'))
+    ang = np.linspace(0.1, 0.1 + 0.2 * (n - 1), n)
+    base = np.c_[np.cos(ang / 2), np.sin(ang / 2) * 0.6, np.sin(ang / 2) * 0.0, np.sin(ang / 2) * 0.8]
+    signs = np.array([-1.0 if (mask >> i) & 1 else 1.0 for i in range(n)])
+    flipped = base * signs[:, None]
+    QA = ahrs.QuaternionArray(flipped.copy())
+    QA.remove_jumps()
+    out = QA.array
+    c.goal('no-jump', bool(np.all(np.linalg.norm(np.diff(out, axis=0), axis=1) <= 1.0)))
+    c.goal('same-rotations', bool(np.all(np.isclose(np.abs(np.sum(out * base, axis=1)), 1.0))))
+    out2 = ahrs.common.orientation.q_correct(flipped.copy())
+    c.goal('q_correct.no-jump', bool(np.all(np.linalg.norm(np.diff(out2, axis=0), axis=1) <= 1.0)))
+
+
 NOT_COVERED = ["LERP branch: proportionality of the angle to the weight (only approximate there; unit norm, endpoints and "
                "betweenness are proved)",
                "slerp_nan / remove_jumps / q_correct / get_nan_intervals (index logic over arrays with NaN rows): covered by the "
